@@ -21,7 +21,7 @@ def main(chk):
         'the reference backend implements the protocol documentation for the statements in the families; Flush-terminated batches are outside the claim (this pgcat version discards Flush)',
     ]
     prog = chk.program('on')
-    hobl.handle_obligations(chk, prog, {'C01'}, ['simple', 'session', 'extended', 'named', 'cuts', 'status', 'two-backends', 'malformed', 'copy', 'two-clients', 'timeouts', 'drops'])
+    hobl.handle_obligations(chk, prog, {'C01'}, ['simple', 'session', 'extended', 'named', 'cuts', 'status', 'two-backends', 'malformed', 'copy', 'two-clients', 'timeouts', 'drops', 'checkout-failures'])
 
 
 if __name__ == '__main__':
